@@ -145,12 +145,23 @@ CHECKS.update({
     ),
 })
 
+CHECKS["C12"] = dict(
+    engine="gen", level="exploration", args=[],
+    deadline=dict(quick=170, thorough=1500),
+    rule="schemas: a compact 3-message schema (nested group, component, enum, every cast incl. Raw and Time) and EVERY single-site mutation of it under the operator set {remove member, swap adjacent members, toggle required, rename a field consistently, add a field of each mapped type, add a message, add a component reference, add a group, change a type-mapping entry to each other cast, duplicate field number (must be rejected), duplicate message type (must be rejected)}; source/fix44.xml, its comparison with tests/fix44 (declaration for declaration, go/ast), and a strided subset (quick 1/9, thorough 1/2) of its single-site mutations; generator/testdata/fix.4.4.xml unmodified (must be rejected) and with the duplicate removed (~90 messages). Per accepted schema: two runs byte-identical, output directory forms ./p, a/b/p, absolute, ./x/../y/p give the same package `p`, the package compiles against the working tree, and an XML-derived driver (own XML reader, type table and naming rules) checks every constant, one-setter-one-field on the wire, getters, member order with everything populated (components, groups, header), group AddEntry/Entries and the typed argument list of every populating constructor. A distinct non-trivial case = a distinct schema of the family.",
+    assumptions=["bounded-exhaustive over the stated mutation neighbourhood only", "trusted: the Go compiler (type checking of the driver against the generated API is part of the oracle), xml.etree, go/ast printer",
+                 "the driver exercises serialisation and accessors of generated code; parsing into generated types is C02's subject"],
+)
+
 ENGINES = [
     {"name": "codecmc", "path": "harness/codec", "serves_properties": ["C01", "C02", "C03", "C11", "C17", "C18"],
      "kind_free_text": "E1: bounded-exhaustive enumeration of the codec input space (templates x populations x values x damage x byte strings) on the real fix / fix/encoding packages against an independent reference codec"},
     {"name": "vsched", "path": "engine/vsched + engine/rewrite + harness/sess", "serves_properties": ["C04", "C05", "C13", "C20", "C06", "C07", "C08", "C09", "C10", "C14", "C15", "C16", "C19"],
      "kind_free_text": "E2: the real transport/session code, source-rewritten so that goroutines, channels, select, sync, context, time and errgroup run on a controlled scheduler with virtual time; stateless deviation-bounded DFS over schedules and exhaustive enumeration of event histories"},
 ]
+
+ENGINES.append({"name": "genmc", "path": "harness/gen", "serves_properties": ["C12"],
+                "kind_free_text": "E3: bounded-exhaustive enumeration of a schema mutation neighbourhood; each schema is generated (twice, four output-directory forms), compiled against the working tree and exercised by a driver derived independently from the XML"})
 
 NOT_APPLICABLE = {}
 
@@ -176,6 +187,7 @@ LEVEL_TEXT.update({
     "C10": "Exhaustive enumeration of (outbound history, resend range[, second range]) and of (stored counter, logon sequence number) pairs on the real session and store, every case executed to quiescence under the controlled scheduler and compared with the recorded first transmissions.",
     "C13": "Exhaustive fault enumeration on the real full stack over a scripted socket: every termination cause at every scheduler-step position after every life-cycle point, for both roles and three buffer sizes, each run to quiescence under virtual time with a leak / liveness oracle; plus delay-bounded schedule exploration of selected cells.",
     "C20": "Stateless, delay-bounded schedule exploration of the intended-use scenario with the Go race detector as oracle on every explored schedule (race-gate build: the controlled scheduler is invisible to the detector, the program's own synchronisation is not).",
+    "C12": "Bounded-exhaustive exploration over programs: every schema in a single-site mutation neighbourhood of three base schemas is run through the real generator, the output compiled and executed under an XML-derived driver; generation determinism and output-directory independence are compared byte for byte.",
     "C14": "Explicit-state exploration of the real logged-on session over all inbound histories up to a depth bound with a collision-forcing TestReqID alphabet, including queued back-to-back deliveries.",
 })
 
@@ -192,6 +204,7 @@ TECHNIQUE = {
     "C10": "explicit-state model checking of the implementation: exhaustive enumeration of outbound histories x resend ranges under a controlled scheduler, reference = recorded first transmissions",
     "C13": "exhaustive fault-position enumeration (cause x life-cycle point x scheduler step) on the implementation under a controlled scheduler and virtual time, plus delay-bounded schedule exploration",
     "C20": "delay-bounded exhaustive schedule exploration under a controlled scheduler with the Go race detector as per-execution oracle (race-gate build)",
+    "C12": "bounded-exhaustive enumeration of a schema mutation neighbourhood through the real generator, with compile-and-run of an independently derived driver as oracle",
     "C14": "explicit-state model checking of the implementation: exhaustive logged-on history enumeration (depth-bounded) with TestReqID alphabet",
     "C01": "bounded-exhaustive input enumeration on the real code vs reference oracle (small-scope model checking of a sequential function)",
     "C17": "bounded-exhaustive input enumeration on the real code vs reference field-list model",
